@@ -102,6 +102,21 @@ def run_hp(ctx, rng, cov):
     return len(cases), len(nontrivial), len(cases) - diverged
 
 
+def gen_detach_cases():
+    """DHP: a thread detaches while exactly k blocks' worth (k x 256) of its retired objects are still guarded by
+    another thread, with a following retired block present; the holder releases its guards after the detach and
+    the singleton is destroyed: every object must have been disposed exactly once (the objects left in a detached
+    record are the subject of the property's second sentence).  (retired, guarded) pairs at and around the block
+    boundaries."""
+    cases = []
+    for i, (nret, keep) in enumerate([(256, 256), (511, 256), (512, 512), (512, 256), (768, 768), (257, 256), (255, 255), (300, 150)]):
+        a = 1
+        holder = [[1], [12, 0, a, a + keep - 1], [8, 0, 1], [15, 0, 2], [14, 0, keep], [2]]
+        retirer = [[1], [15, 0, 1], [11, a, a + nret - 1], [2], [8, 0, 2]]
+        cases.append({"id": "det%d" % i, "cfg": [4, C02.GB, C02.RB, 0, C02.FUEL, 2, 1], "threads": [holder, retirer], "sched": [], "kind": "detach-guarded"})
+    return cases
+
+
 def run_dhp(ctx, rng, cov):
     sub = Sub(ctx, rng)
     model = conc_check.build_model(ctx, "Extract_Dhp.v", tag="dhp_model")
@@ -115,6 +130,7 @@ def run_dhp(ctx, rng, cov):
     for c in gen:
         c["id"] = "x" + str(c["id"])
     cases += gen
+    cases += gen_detach_cases()
     stats = {"feat": [], "steps": 0, "diverged": 0, "agree": 0}
     mlog, mdead = C02.run_exe_chunks(sub, mcmd, cases, "c3m")
     runnable = [c for c in cases if c["id"] in mlog and not any(l.endswith(" ev _oob") for l in mlog[c["id"]]["lines"][-2:])]
